@@ -1,9 +1,102 @@
-import Echse.Model.Strpf
+import Echse.Lemmas.Strpf2
 namespace C18
-open Echse.Instant Echse.Strpf
+open Echse.Instant Echse.Strpf Echse.Spec.Cal
 
-/-- smoke (replaced by the general statements as they are proved) -/
-theorem dt_roundtrip_leapday :
-    dtStrp (dtStrf ⟨2020, 2, 29, 10, 30, 15, 250⟩) 0 = some (⟨2020, 2, 29, 10, 30, 15, 250⟩, 23) := by decide
+/-! ### A. ISO form -/
+
+theorem dtStrf_length_ms (i : Inst) (h : Normal i) : (dtStrf i).length = 23 := by
+  obtain ⟨-, hH, -, -, hms⟩ := h
+  rw [dtStrf_ms i (by simp only [allDay]; omega) (by simp only [allSec]; omega)]
+  simp [spell_length, tpstr3]
+
+/-- (a) millisecond resolution -/
+theorem dt_roundtrip_ms (i : Inst) (hy : i.y ≤ 9999) (h : Normal i) :
+    dtStrp (dtStrf i) 0 = some (i, (dtStrf i).length) ∧
+    dtStrp (dtStrf i) (dtStrf i).length = some (i, (dtStrf i).length) := by
+  rw [dtStrf_length_ms i h]
+  obtain ⟨-, hH, -, -, hms⟩ := id h
+  rw [dtStrf_ms i (by simp only [allDay]; omega) (by simp only [allSec]; omega)]
+  obtain ⟨y, m, d, H, M, S, ms⟩ := i
+  exact ⟨iso_ms_parse 0 (Or.inl rfl) y m d H M S ms hy h, iso_ms_parse 23 (Or.inr rfl) y m d H M S ms hy h⟩
+
+
+theorem hne_sec {i : Inst} (h : NormalSec i) : i.H ≠ allDay := by
+  have := h.2.1; simp only [allDay]; omega
+theorem hne_ms {i : Inst} (h : Normal i) : i.H ≠ allDay := by
+  have := h.2.1; simp only [allDay]; omega
+
+/-- (b) second resolution -/
+theorem dt_roundtrip_sec (i : Inst) (hy : i.y ≤ 9999) (h : NormalSec i) :
+    dtStrp (dtStrf i) 0 = some (i, (dtStrf i).length) ∧
+    dtStrp (dtStrf i) (dtStrf i).length = some (i, (dtStrf i).length) := by
+  rw [dtStrf_sec i (hne_sec h) h.2.2.2.2, spell_length]
+  obtain ⟨y, m, d, H, M, S, ms⟩ := i
+  obtain rfl : ms = allSec := h.2.2.2.2
+  exact ⟨spell_parse true true 'T' false y m d H M S 0 (Or.inl rfl) (Or.inl rfl) hy h,
+         spell_parse true true 'T' false y m d H M S _ (Or.inr rfl) (Or.inl rfl) hy h⟩
+
+/-- (c) all-day -/
+theorem dt_roundtrip_day (i : Inst) (hy : i.y ≤ 9999) (h : NormalDay i)
+    (hM : i.M = 0) (hS : i.S = 0) (hms : i.ms = 0) :
+    dtStrp (dtStrf i) 0 = some (i, (dtStrf i).length) ∧
+    dtStrp (dtStrf i) (dtStrf i).length = some (i, (dtStrf i).length) := by
+  obtain ⟨y, m, d, H, M, S, ms⟩ := i
+  obtain ⟨hv, rfl⟩ := h
+  simp only at hM hS hms; subst hM hS hms
+  rw [dtStrf_day _ rfl]
+  have hl : (dayStr true ⟨y, m, d, allDay, 0, 0, 0⟩).length = 10 := by simp [dayStr, tpstr2, tpstr4]
+  rw [hl]
+  exact ⟨day_parse true 0 (Or.inl rfl) y m d hy hv, day_parse true 10 (Or.inr rfl) y m d hy hv⟩
+
+/-! ### B. iCalendar form -/
+
+/-- (b) second resolution: the trailing `Z` is consumed -/
+theorem ical_roundtrip_sec (i : Inst) (hy : i.y ≤ 9999) (h : NormalSec i) :
+    dtStrp (dtStrfIcal i) 0 = some (i, (dtStrfIcal i).length) ∧
+    dtStrp (dtStrfIcal i) (dtStrfIcal i).length = some (i, (dtStrfIcal i).length) := by
+  rw [dtStrfIcal_sec i (hne_sec h), spell_length]
+  obtain ⟨y, m, d, H, M, S, ms⟩ := i
+  obtain rfl : ms = allSec := h.2.2.2.2
+  exact ⟨spell_parse false false 'T' true y m d H M S 0 (Or.inl rfl) (Or.inl rfl) hy h,
+         spell_parse false false 'T' true y m d H M S _ (Or.inr rfl) (Or.inl rfl) hy h⟩
+
+/-- (c) all-day -/
+theorem ical_roundtrip_day (i : Inst) (hy : i.y ≤ 9999) (h : NormalDay i)
+    (hM : i.M = 0) (hS : i.S = 0) (hms : i.ms = 0) :
+    dtStrp (dtStrfIcal i) 0 = some (i, (dtStrfIcal i).length) ∧
+    dtStrp (dtStrfIcal i) (dtStrfIcal i).length = some (i, (dtStrfIcal i).length) := by
+  obtain ⟨y, m, d, H, M, S, ms⟩ := i
+  obtain ⟨hv, rfl⟩ := h
+  simp only at hM hS hms; subst hM hS hms
+  rw [dtStrfIcal_day _ rfl]
+  have hl : (dayStr false ⟨y, m, d, allDay, 0, 0, 0⟩).length = 8 := by simp [dayStr, tpstr2, tpstr4]
+  rw [hl]
+  exact ⟨day_parse false 0 (Or.inl rfl) y m d hy hv, day_parse false 8 (Or.inr rfl) y m d hy hv⟩
+
+/-- (a) millisecond resolution: the iCalendar form has no milliseconds; the result has second
+resolution. -/
+theorem ical_roundtrip_ms (i : Inst) (hy : i.y ≤ 9999) (h : Normal i) :
+    dtStrp (dtStrfIcal i) 0 = some ({ i with ms := allSec }, (dtStrfIcal i).length) ∧
+    dtStrp (dtStrfIcal i) (dtStrfIcal i).length = some ({ i with ms := allSec }, (dtStrfIcal i).length) := by
+  rw [dtStrfIcal_sec i (hne_ms h), spell_length]
+  obtain ⟨y, m, d, H, M, S, ms⟩ := i
+  have h' : NormalSec ⟨y, m, d, H, M, S, allSec⟩ := ⟨h.1, h.2.1, h.2.2.1, h.2.2.2.1, rfl⟩
+  exact ⟨spell_parse false false 'T' true y m d H M S 0 (Or.inl rfl) (Or.inl rfl) hy h',
+         spell_parse false false 'T' true y m d H M S _ (Or.inr rfl) (Or.inl rfl) hy h'⟩
+
+/-! ### C. spellings -/
+
+/-- every second-resolution spelling `YYYY-MM-DD` / `YYYYMMDD`, `T` or space, `HH:MM:SS` / `HHMMSS`,
+with or without a final `Z`, parses to the instant, and the whole text is consumed. -/
+theorem dt_spellings (dsep tsep : Bool) (sep : Char) (z : Bool) (i : Inst)
+    (hsep : sep = 'T' ∨ sep = ' ') (hy : i.y ≤ 9999) (h : NormalSec i) :
+    dtStrp (spell dsep tsep sep z i) 0 = some (i, (spell dsep tsep sep z i).length) ∧
+    dtStrp (spell dsep tsep sep z i) (spell dsep tsep sep z i).length
+      = some (i, (spell dsep tsep sep z i).length) := by
+  rw [spell_length]
+  obtain ⟨y, m, d, H, M, S, ms⟩ := i
+  obtain rfl : ms = allSec := h.2.2.2.2
+  exact ⟨spell_parse dsep tsep sep z y m d H M S 0 (Or.inl rfl) hsep hy h,
+         spell_parse dsep tsep sep z y m d H M S _ (Or.inr rfl) hsep hy h⟩
 
 end C18
